@@ -16,7 +16,7 @@ import subprocess
 import sys
 
 from vp import realbooks, hist, wb, wbgen
-from vp.core import PY, check_env
+from vp.core import PY, check_env, h64
 
 PROP = 'C03'
 LEVEL = 'exploration'
@@ -32,9 +32,9 @@ FLOORS = {
               'site:process': 8, 'value_compares': 3000, 'history_compares': 1500, 'second_saves': 100,
               'resaves_of_loaded': 100, 'with_extra_data': 40, 'cycles_on': 30, 'hostile_constants': 500,
               'files_opened_seen': 400, 'workbook_changed_on_disk_after_compile': 30, 'real_book_cases': 20,
-              'real_value_compares': 2000},
-    'thorough': {'round_trips': 5000, 'site:process': 200, 'site:thread': 800, 'cycles_on': 800,
-                 'hostile_constants': 12000},
+              'real_value_compares': 2000, 'directed:big_model_saves': 15},
+    'thorough': {'round_trips': 3000, 'site:process': 150, 'site:thread': 500, 'cycles_on': 500,
+                 'hostile_constants': 8000},
 }
 ASSUMPTIONS = ['only cells that were in the model when it was saved are compared (unsaved cells are blank after a '
                'load: documented)',
@@ -589,6 +589,72 @@ def alternating_saves(ctx):
                     os.remove(f)
 
 
+def big_model_saves(ctx, rng):
+    """directed: a model of the large sizes (vp.wbgen.big; its text file is beyond 64 KiB) saved several times under one
+    name - after a write to the cell its text ends with, after a write to the cell it starts with, with a save of the
+    text file alone in between, with the other text format - and loaded back from every file each save wrote: what is
+    loaded shows what the saved model shows, and follows the same write"""
+    from pycel import ExcelCompiler
+    spec, meta = wbgen.big(rng)
+    comp = wb.compile_mem(spec)
+    for a in sorted(meta['formulas']):
+        wb.outcome(comp.evaluate, a)
+    n_tab = max(int(a.rsplit('CB', 1)[1]) for a in meta['inputs'] if a.startswith('Sheet1!CB'))
+    last, first = f'Sheet1!CB{n_tab}', 'S01!A1'
+    chain = sorted((a for a in meta['formulas'] if a.startswith('Sheet1!H')), key=lambda a: int(a.rsplit('H', 1)[1]))
+    watch = ['Sheet1!D415', 'Sheet1!D411', 'Sheet1!E420', 'Sheet1!C400', 'Sheet1!F433', 'Sheet1!G444', chain[-1],
+             'Sheet1!A450', 'S01!B2']
+    base = os.path.join(ctx.tmpdir, 'big-model')
+    steps = [
+        ('first save', None, None, [None], ('', '.yml', '.pkl')),
+        ('write to the cell the text ends with', last, 777, [None], ('', '.yml', '.pkl')),
+        ('write to the cell the text starts with, text file alone, then both', first, 5, [('yml',), None], ('', '.yml', '.pkl')),
+        ('write to the last cell again, other text format', last, 778, [('json', 'pkl')], ('.json', '.pkl')),
+        ('write to a cell in the middle', 'Sheet1!H1', 41, [None], ('', '.yml', '.pkl')),
+    ]
+    case = {'kind': 'big-model-saves'}
+    try:
+        for label, cell, value, saves, loads in steps:
+            if cell:
+                comp.set_value(cell, value)
+            want = {a: wb.outcome(comp.evaluate, a) for a in watch}
+            for types in saves:
+                if types is None:
+                    comp.to_file(base)
+                else:
+                    comp.to_file(base, file_types=types)
+            ctx.count('directed:big_model_saves')
+            ctx.case(('big-model-saves', label))
+            for ext in loads:
+                m = ExcelCompiler.from_file(base + ext)
+                got = {a: wb.outcome(m.evaluate, a) for a in watch}
+                bad = [a for a in watch if got[a][0] != want[a][0] or (got[a][0] == 'v' and not wb.same(got[a][1], want[a][1]))]
+                if not bad:
+                    # the loaded model follows a write like the saved one (on a copy of the saved values: comp stays)
+                    m.set_value('Sheet1!A410', 3 * 7)
+                    probe = wb.outcome(m.evaluate, 'Sheet1!D411')
+                    if probe != ('v', 1007):
+                        bad = ['Sheet1!D411 after set_value(A410, 21)']
+                        got['x'] = probe
+                if bad:
+                    a = bad[0]
+                    ctx.violation('file-written-by-to_file-holds-an-older-model/large-model/' +
+                                  ('pkl' if ext in ('', '.pkl') else 'text'),
+                                  f'{label}: the model loaded from {os.path.basename(base) + ext!r} gives {a} = '
+                                  f'{got.get(a, got.get("x"))!r}, the saved model has {want.get(a)!r} (text file of '
+                                  f'{os.path.getsize(base + (".json" if ext == ".json" else ".yml"))} bytes)', case)
+                    raise StopIteration
+    except StopIteration:
+        pass
+    except Exception as exc:
+        if not wb.raised_outside_harness(exc):
+            raise
+        ctx.violation('save-sequence-raises/large-model', f'{wb.describe(exc)}', case)
+    finally:
+        for f in glob.glob(base + '.*'):
+            os.remove(f)
+
+
 def save_names(ctx):
     """directed: base names that end like one of the extensions without being one (model_json, mypkl), names with other
     dots; what to_file(name) wrote, from_file(name) reads"""
@@ -670,6 +736,9 @@ def run(ctx):
         alternating_saves(ctx)
         relative_name_case(ctx)
         save_names(ctx)
+    if ctx.shard % 4 == 3 or not ctx.quick:
+        import random
+        big_model_saves(ctx, random.Random(h64(('c03-big', ctx.seed, ctx.shard))))
     # save / load of the workbooks shipped with the repository
     realbooks.run_cases(ctx, realbooks.c03_case, realbooks.acyclic_books(), 6 if ctx.quick else 60, fraction=0.25)
     while not ctx.out_of_time():
@@ -703,6 +772,11 @@ def replay(ctx, case):
         return
     if case.get('kind') == 'alternating-saves':
         alternating_saves(ctx)
+        return
+    if case.get('kind') == 'big-model-saves':
+        import random
+        for k in range(4):
+            big_model_saves(ctx, random.Random(h64(('c03-big', ctx.seed, 4 * k + 3))))
         return
     if case.get('kind') == 'save-names':
         save_names(ctx)
